@@ -517,6 +517,7 @@ type progTxn struct {
 	result string
 	savedFU uint64
 	lastFU  uint64
+	killed  *uint32 // C06: the session's kill flag (kv.Variables.Killed), installed by the first `kill` step
 }
 
 func runProgram(sc *Scenario, e *env, out map[string]interface{}) {
@@ -872,6 +873,20 @@ func runProgram(sc *Scenario, e *env, out map[string]interface{}) {
 			pt.done = true
 			pt.result = "rolledback"
 			e.trace.add(Event{Kind: "told", Client: cid, F: map[string]interface{}{"start": pt.txn.StartTS(), "res": "ok", "finish": "rollback"}})
+		case "kill":
+			// C06: the session's kill flag (KILL QUERY / max execution time): V = "1" sets it, "0" clears it; interruptible
+			// requests of the transaction then fail in the sender without being sent, release requests must still go out
+			if pt.killed == nil {
+				pt.killed = new(uint32)
+				vars := *kv.DefaultVars
+				vars.Killed = pt.killed
+				pt.txn.SetVars(&vars)
+			}
+			if st.V == "0" {
+				atomic.StoreUint32(pt.killed, 0)
+			} else {
+				atomic.StoreUint32(pt.killed, 1)
+			}
 		case "failpoint":
 			// C06: schedule control through a product failpoint (K = name, V = expression, empty V disables)
 			if st.V == "" {
